@@ -22,6 +22,7 @@ void harness(void){
   else r = snoopy_output_devnulloutput(msg, arg);
   __CPROVER_assert(msg[verif_msg_idx] == m0, "output: the message is not modified (ghost index)");
   __CPROVER_assert(verif_fd_open == 0, "output: every descriptor opened is closed again on every path");
+  VERIF_ASSERT_SIGNALS_UNTOUCHED();
 #ifndef H_FAIL
   if (which == 0 && alen == 0) {
     __CPROVER_assert(verif_nev == 0 && r == SNOOPY_OUTPUT_FAILURE, "file output without a path: no effect at all");
